@@ -52,6 +52,7 @@ type rw struct {
 	pkg     *packages.Package
 	n       int
 	mapPkgs bool
+	mapFn   string
 	used    bool
 }
 
@@ -251,7 +252,7 @@ func (r *rw) rangeStmt(s *ast.RangeStmt) ast.Stmt {
 		}
 		return &ast.BlockStmt{List: []ast.Stmt{
 			&ast.AssignStmt{Lhs: []ast.Expr{ast.NewIdent(mv)}, Tok: token.DEFINE, Rhs: []ast.Expr{s.X}},
-			&ast.AssignStmt{Lhs: []ast.Expr{ast.NewIdent(kv)}, Tok: token.DEFINE, Rhs: []ast.Expr{call(vsSel("MapKeys"), ast.NewIdent(mv))}},
+			&ast.AssignStmt{Lhs: []ast.Expr{ast.NewIdent(kv)}, Tok: token.DEFINE, Rhs: []ast.Expr{call(vsSel(r.mapFn), ast.NewIdent(mv))}},
 			loop,
 		}}
 	}
@@ -339,10 +340,10 @@ func (r *rw) selects(f *ast.File) {
 // Packages rewritten by default: everything the controlled-scheduler harnesses import, directly or not.
 var defaultPkgs = []string{
 	"./io", "./internal/convert",
-	"./rpc/core", "./rpc/mock", "./rpc/socket", "./rpc/udp", "./rpc/codec/jsonrpc",
+	"=./rpc/core", "./rpc/mock", "+./rpc/socket", "+./rpc/udp", "./rpc/codec/jsonrpc",
 	"./rpc/plugins/circuitbreaker", "./rpc/plugins/cluster", "./rpc/plugins/forward", "./rpc/plugins/limiter",
 	"+./rpc/plugins/loadbalance", "./rpc/plugins/log", "./rpc/plugins/oneway", "+./rpc/plugins/push",
-	"./rpc/plugins/reverse", "./rpc/plugins/timeout",
+	"=./rpc/plugins/reverse", "./rpc/plugins/timeout",
 	"+github.com/orcaman/concurrent-map",
 }
 
@@ -359,12 +360,15 @@ func main() {
 	if len(args) == 0 {
 		args = defaultPkgs
 	}
-	mapPkgs := map[string]bool{}
+	mapPkgs := map[string]string{}
 	var pats []string
 	for _, a := range args {
-		if strings.HasPrefix(a, "+") { // '+' prefix: also rewrite map ranges
+		if strings.HasPrefix(a, "+") { // '+' prefix: map iteration order becomes an explorer choice
 			a = a[1:]
-			mapPkgs[a] = true
+			mapPkgs[a] = "MapKeys"
+		} else if strings.HasPrefix(a, "=") { // '=' prefix: map iteration in sorted order (deterministic, not explored)
+			a = a[1:]
+			mapPkgs[a] = "MapKeysSorted"
 		}
 		pats = append(pats, a)
 	}
@@ -386,7 +390,7 @@ func main() {
 			key = "./" + strings.TrimPrefix(key, mod+"/")
 		}
 		for _, f := range p.Syntax {
-			r := &rw{pkg: p, mapPkgs: mapPkgs[key]}
+			r := &rw{pkg: p, mapPkgs: mapPkgs[key] != "", mapFn: mapPkgs[key]}
 			func() {
 				defer func() {
 					if e := recover(); e != nil {
